@@ -1060,7 +1060,7 @@ def run(ctx):
                 ctx.sample(case.get('cls') or case['kind'], case)
                 evaluate(ctx, case)
 
-    scale = ctx.pick(1, 20)
+    scale = ctx.pick(1, 100)
     blocks('v4', 22000 * scale, lambda rng: gen_v4(rng, pick_quota(rng, QUOTA_V4)))
     blocks('v6', 30000 * scale, lambda rng: gen_v6(rng, pick_quota(rng, QUOTA_V6)))
     blocks('cidr', 24000 * scale, lambda rng: gen_cidr(rng, pick_quota(rng, QUOTA_CIDR)))
